@@ -72,7 +72,8 @@ BUDGET = {"quick": {"worker_timeout": 600, "case_timeout": 60}, "thorough": {"wo
 METHODS = ["euler", "rk4", "rk38", "rk23", "rk45"]
 FIXED = ("euler", "rk4", "rk38")
 ADAPTIVE = ("rk23", "rk45")
-CALL_BUDGET = 20000     # right-hand-side calls per solve (largest seen on the unchanged tree: 724); more = 'does not terminate'
+CALL_BUDGET = 8000      # right-hand-side calls per solve (largest seen on the unchanged tree: 724); more = 'does not terminate'
+STUCK_CALLS = 1000      # consecutive calls without any progress in time (largest seen: 51) = 'does not terminate'
 SMALL_BUDGET = 2000      # scripted / single-step solves (largest seen: 65)
 
 # ------------------------------------------------------------------------------------------------ literature tableaus
@@ -207,11 +208,15 @@ class CallBudget(Exception):
 class Spy:
     """records every call of the right-hand side: (t as float, flattened y, flattened returned slope)"""
 
-    def __init__(self, rule, budget=CALL_BUDGET):
+    def __init__(self, rule, budget=CALL_BUDGET, direction=1.0):
         self.rule = rule
         self.log = []
         self.n = 0
         self.budget = budget
+        self.direction = direction
+        self.tmax = -float("inf")
+        self.since_progress = 0
+        self.max_since_progress = 0
         self.arg_kinds = set()
         self.t_kinds = set()
 
@@ -235,7 +240,17 @@ class Spy:
                 oflat = torch.cat([c.detach().reshape(-1) for c in out]).clone()
             else:
                 oflat = out.detach().reshape(-1).clone()
-            spy.log.append((float(t), yflat, oflat))
+            tf = float(t)
+            spy.log.append((tf, yflat, oflat))
+            if spy.direction * tf > spy.tmax:
+                spy.tmax = spy.direction * tf
+                spy.since_progress = 0
+            else:
+                spy.since_progress += 1
+                if spy.since_progress > spy.max_since_progress:
+                    spy.max_since_progress = spy.since_progress
+                if spy.since_progress > STUCK_CALLS:
+                    raise CallBudget()
             return out
         return rhs
 
@@ -487,15 +502,17 @@ def replay_adaptive(method, log, ts, y0f, ytf, atol, rtol, obs, key, eps):
 def run_solver(obs, key, rule, ts, y0, method, params=(), opts=None, budget=CALL_BUDGET):
     """calls the real solve_ivp with a recording right-hand side; returns (spy, result or None)"""
     from xitorch.integrate import solve_ivp
-    spy = Spy(rule, budget)
+    tl = [float(x) for x in ts]
+    spy = Spy(rule, budget, direction=-1.0 if tl[-1] < tl[0] else 1.0)
     kw = dict(opts or {})
     try:
         with WarnLog():
             with torch.no_grad():
                 yt = solve_ivp(spy.fcn(), ts, y0, params=tuple(params), method=method, **kw)
     except CallBudget:
-        obs.check(False, "no_termination:%s" % key, "right-hand side called more than %d times without returning" % budget,
-                  ts=[float(x) for x in ts][:10])
+        obs.check(False, "no_termination:%s" % key,
+                  "solve_ivp did not return: %d right-hand-side calls, the last %d without progress in time (limits %d / %d)" % (
+                      spy.n, spy.since_progress, budget, STUCK_CALLS), ts=tl[:10])
         return spy, None
     except Exception as e:  # an exception on an input the property covers
         obs.exc_violation("solve:%s" % key, e, ts=[float(x) for x in ts][:10])
@@ -503,6 +520,7 @@ def run_solver(obs, key, rule, ts, y0, method, params=(), opts=None, budget=CALL
     obs.count("rhs_calls", spy.n)
     obs.count("solves")
     _track(obs, "max_calls_per_solve", spy.n)
+    _track(obs, "max_calls_without_progress", spy.max_since_progress)
     return spy, yt
 
 
